@@ -182,6 +182,12 @@ def family():
     add("conj(V0[i])*V1[j]*F[i]*F[j]", mult(mult(Conj(idx(vv, i)), idx(fv, i)), mult(idx(uu, j), idx(fv, j))), (vv, uu))
     add("v0*v1/f", D(P(v, u), f), (v, u))
     add("v0/v1", D(v, u), (v, u))
+    # an argument in a denominator next to a factor that is legitimately linear in the form's arguments
+    add("v0*(f/v0)   (not linear: the quotient cancels the argument)", P(v, D(f, v)), (v,))
+    add("v1*(f/v0)", P(u, D(f, v)), (v, u))
+    add("v0*(f/(g + v0))", P(v, D(f, S(g, v))), (v,))
+    add("v0*v1*(f/v0)", P(P(v, u), D(f, v)), (v, u))
+    add("v0*(g/f)   (no argument in the denominator)", P(v, D(g, f)), (v,))
     add("conditional(f<g, conj(v0)*v1, 0)", uflmodel.m_conditional(c, P(Conj(v), u), zero), (v, u))
     add("conditional(f<g, v0, v1)", uflmodel.m_conditional(c, v, u), (v, u))
     add("as_vector([conj(v0)*v1, 0])[i]*F[i]", mult(idx(uflmodel.m_list_tensor(P(Conj(v), u), zero), i), idx(fv, i)), (v, u))
